@@ -277,7 +277,8 @@ Definition abs_imports (fs : fsys) (cur : list N) : list (list N) :=
    import order that defines it; a qualified name selects the named file's rule. *)
 Definition spec_resolve (fs : fsys) (cur name : list N) : option (list N * list N) :=
   match rsplit1 name with
-  | Some (q, n) => if defines fs q n then Some (q, n) else None
+  | Some (q, n) => if defines fs q n then Some (q, n)
+                   else if str_eqb q BASE && is_base n then Some (BASE, n) else None
   | None =>
       if defines fs cur name then Some (cur, name)
       else if is_base name then Some (BASE, name)
